@@ -304,6 +304,63 @@ def gen_tree(rng, family, depth, budget, role='any', illposed=False):
     return Node(op, args), used
 
 
+def gen_pair(rng, op):
+    """two leaves of the same class that `_combine` merges (or refuses) under `op`; initial conditions
+    on both, one (either order) or none of the members; zero elements"""
+    def ic_pair():
+        m = rng.randrange(5)
+        a = rnd_any(rng)
+        if m == 0:
+            return None, None
+        if m == 1:
+            return a, None
+        if m == 2:
+            return None, a
+        if m == 3:
+            return a, a
+        return a, rnd_any(rng)
+    kinds = ['C', 'C', 'L', 'L', 'R', 'G', 'dc', 'gen', 'zero']
+    k = rng.choice(kinds)
+    if k in ('C', 'L'):
+        i1, i2 = ic_pair()
+        return [Leaf(k, rnd_pos(rng), i1), Leaf(k, rnd_pos(rng), i2)]
+    if k in ('R', 'G'):
+        return [Leaf(k, rnd_pos(rng)), Leaf(k, rnd_pos(rng))]
+    if k in ('dc', 'gen'):
+        src = 'V' if op == 'S' else 'I'
+        return [Leaf(src, k, rnd_any(rng)), Leaf(src, k, rnd_any(rng))]
+    if op == 'S':
+        z = rng.choice([Leaf('V', 'gen', Fraction(0)), Leaf('R', Fraction(0)), Leaf('Z', ('k', Fraction(0)))])
+    else:
+        z = rng.choice([Leaf('I', 'gen', Fraction(0)), Leaf('Y', ('k', Fraction(0))), Leaf('G', Fraction(0))])
+    other = gen_leaf(rng, 'transient', 'noI' if op == 'S' else 'noV')
+    return [z, other] if rng.random() < 0.5 else [other, z]
+
+
+def gen_combine_tree(rng, depth):
+    """a tree in which simplify() has something to merge: a mergeable pair (possibly separated by other
+    arguments, possibly inside a nested Ser/Par of the same or the other class), embedded at `depth`"""
+    op = rng.choice('SP')
+    pair = gen_pair(rng, op)
+    role = 'noI' if op == 'S' else 'noV'
+    args = [pair[0]]
+    for _ in range(rng.randrange(3)):
+        args.append(gen_leaf(rng, 'transient', role))
+    if rng.random() < 0.3:
+        # the second member sits in a nested network of the same class (spliced by the flattening loop)
+        args.append(Node(op, [pair[1], gen_leaf(rng, 'transient', role)]))
+    else:
+        args.append(pair[1])
+    if rng.random() < 0.3:
+        args.append(gen_leaf(rng, 'transient', role))
+    t = Node(op, args)
+    for _ in range(depth):
+        o2 = rng.choice('SP')
+        sib = gen_leaf(rng, 'transient', 'noI' if o2 == 'S' else 'noV')
+        t = Node(o2, [t, sib] if rng.random() < 0.5 else [sib, t])
+    return t
+
+
 def rnd_point(rng):
     return Fraction(rng.randint(1, 40), rng.randint(1, 7))
 
@@ -379,7 +436,11 @@ def run_oneport(chk, drv, L, state):
         family = 'transient' if case % 3 != 2 else 'resistive'
         illposed = (case % 10 == 9)
         depth = 1 + case % max_depth
-        tree, _ = gen_tree(rng, family, depth, max_leaves, 'any', illposed)
+        if case % 4 == 1:
+            family, illposed = 'combine', False
+            tree = gen_combine_tree(rng, case % 3)
+        else:
+            tree, _ = gen_tree(rng, family, depth, max_leaves, 'any', illposed)
         if isinstance(tree, Leaf):
             tree = Node(rng.choice('SP'), [tree, gen_leaf(rng, family, 'any')])
         s = rnd_point(rng)
@@ -496,6 +557,27 @@ def run_oneport(chk, drv, L, state):
                     finding({'kind': 'oneport', 'cause': cause, 'route': route, 'form': 'norton'},
                             dict(replay, route=route, reported={'Y': fstr(Y), 'Isc': fstr(Isc)}),
                             '(Y, Isc) reported by the %s route is not the relation of the network' % route)
+
+        # ---- thevenin() / norton(): the equivalent network must have the relation of the original
+        if family == 'combine':
+            for meth, pre, req in (('thevenin', tOK, 'op.thev'), ('norton', nOK, 'op.nort')):
+                if not pre:
+                    continue
+                try:
+                    with contextlib.redirect_stdout(io.StringIO()):
+                        eq = getattr(net, meth)()
+                        pair = ([L.at(eq.Z, s), L.at(eq.Voc, s)] if meth == 'thevenin' else [L.at(eq.Y, s), L.at(eq.Isc, s)])
+                except Exception as e:   # noqa
+                    chk.count('lcapy-error', '%s():%s' % (meth, type(e).__name__))
+                    continue
+                if any(v is None for v in pair):
+                    chk.count('degenerate', meth + '-not-finite')
+                    continue
+                chk.count('spec-judged', meth + '()')
+                if drv.ask1('%s %s %s %s %s' % (req, fstr(s), fstr(pair[0]), fstr(pair[1]), toks)) != 'true':
+                    finding({'kind': 'simplify', 'cause': 'relation-changed', 'via': meth},
+                            dict(replay, method=meth, reported=[fstr(v) for v in pair]),
+                            'net.%s() is not equivalent to the network' % meth)
 
         # ---- simplify: correspondence with the model, and oracle c (quantities unchanged)
         msimp = drv.ask1('op.simp %s %s' % (fstr(s), toks))
@@ -688,7 +770,7 @@ def run_twoport(chk, drv, L, state):
         mod = [None if x == 'undef' else Fraction(x) for x in rB.split()]
         replay = {'input': {'twoport': toks, 's': fstr(s), 'lcapy_expr': str(tp)[:300]}, 'model': rB}
         lc = {}
-        for X in 'BAZY':
+        for X in 'BAZYHG':
             try:
                 with contextlib.redirect_stdout(io.StringIO()):
                     lc[X] = mat_at(getattr(tp, X + 'params'), s)
@@ -719,7 +801,7 @@ def run_twoport(chk, drv, L, state):
                     chk.coverage['correspondence']['disagreements'] += 1
                     disagreements.append({'what': 'twoport.sources:' + spec.kind, 'twoport': toks, 's': fstr(s),
                                           'lcapy': [fstr(v) for v in lc_src], 'model': rB})
-            for X in 'AZY':
+            for X in 'AZYHG':
                 if isinstance(lc[X], str) or any(v is None for v in lc[X]):
                     continue
                 r = drv.ask1('tp2.M %s %s %s' % (fstr(s), X, toks))
@@ -745,7 +827,7 @@ def run_twoport(chk, drv, L, state):
             except Exception as e:   # noqa
                 cct = None
                 chk.count('lcapy-error', 'netlist:%s' % type(e).__name__)
-            for X in ('BAZY' if cct is not None else ''):
+            for X in ('BAZYHG' if cct is not None else ''):
                 if isinstance(lc[X], str) or any(v is None for v in lc[X]):
                     continue
                 try:
@@ -762,6 +844,63 @@ def run_twoport(chk, drv, L, state):
                     finding({'kind': 'twoport', 'cause': 'netlist-params-differ', 'class': spec.kind, 'params': X},
                             dict(replay, netlist_params=[fstr(v) for v in got]),
                             '%s.%sparams differs from Circuit(tp.netlist()).%sparams(1,0,3,2)' % (spec.kind, X, X))
+
+        # ---- oracle e: connections of two two-ports, judged by Spec.rel on connected ports (every
+        #      representation the class reports, including the conversions of its native Y/Z/H/G matrix)
+        if spec.kind in ('Par2', 'Ser2', 'Hybrid2', 'InverseHybrid2'):
+            try:
+                with contextlib.redirect_stdout(io.StringIO()):
+                    bs = [mat_at(a.Bparams, s) for a in tp.args]
+            except Exception as e:   # noqa
+                bs = None
+                chk.count('lcapy-error', 'constituent.Bparams:%s' % type(e).__name__)
+            if bs is not None and all(v is not None for b in bs for v in b):
+                for _ in range(2):
+                    x, y = rnd_any(rng), rnd_any(rng)
+                    ports = []
+                    try:
+                        for (b11, b12, b21, b22) in bs:
+                            if spec.kind == 'Par2':          # common V1 = x, V2 = y
+                                V1, V2 = x, y
+                                I1 = (V2 - b11 * V1) / b12
+                                I2 = -(b21 * V1 + b22 * I1)
+                            elif spec.kind == 'Ser2':        # common I1 = x, I2 = y
+                                I1, I2 = x, y
+                                V1 = (-I2 - b22 * I1) / b21
+                                V2 = b11 * V1 + b12 * I1
+                            elif spec.kind == 'Hybrid2':     # common I1 = x, V2 = y
+                                I1, V2 = x, y
+                                V1 = (V2 - b12 * I1) / b11
+                                I2 = -(b21 * V1 + b22 * I1)
+                            else:                            # common V1 = x, I2 = y
+                                V1, I2 = x, y
+                                I1 = (-I2 - b21 * V1) / b22
+                                V2 = b11 * V1 + b12 * I1
+                            ports.append((V1, I1, V2, I2))
+                    except ZeroDivisionError:
+                        chk.count('degenerate', 'connection-port-unsolvable')
+                        continue
+                    for b, pp in zip(bs, ports):
+                        if drv.ask1('tp.rel B %s 1 %s' % (' '.join(fstr(v) for v in b), ' '.join(fstr(v) for v in pp))) != 'true':
+                            raise common.Infra('connection port generator')
+                    p, q = ports
+                    if spec.kind == 'Par2':
+                        r = (p[0], p[1] + q[1], p[2], p[3] + q[3])
+                    elif spec.kind == 'Ser2':
+                        r = (p[0] + q[0], p[1], p[2] + q[2], p[3])
+                    elif spec.kind == 'Hybrid2':
+                        r = (p[0] + q[0], p[1], p[2], p[3] + q[3])
+                    else:
+                        r = (p[0], p[1] + q[1], p[2] + q[2], p[3])
+                    rt = ' '.join(fstr(v) for v in r)
+                    for X in 'YZHGAB':
+                        if isinstance(lc[X], str) or any(v is None for v in lc[X]):
+                            continue
+                        chk.count('spec-judged', '%s.%sparams' % (spec.kind, X))
+                        if drv.ask1('tp.rel %s %s 1 %s' % (X, ' '.join(fstr(v) for v in lc[X]), rt)) != 'true':
+                            finding({'kind': 'twoport', 'cause': 'connection-params', 'class': spec.kind, 'params': X},
+                                    dict(replay, constituents=[[fstr(v) for v in b] for b in bs], port=rt),
+                                    '%s.%sparams does not describe the connected two-ports' % (spec.kind, X))
 
         # ---- oracle d: the Lean spec judges L / T / Pi matrices and source vectors on physical ports
         if spec.kind in ('LSection', 'TSection', 'PiSection') and finite:
